@@ -45,6 +45,7 @@ func vCheckArray(name string, a *Array, st vState, res *Array) {
 	n := vElements(b, len(st.pre), st.first)
 	zzverif.Assert(n >= 0, name+": appended bytes are well-formed array elements with correct commas")
 	zzverif.Reach(name)
+	vCheckOwned(name, a.buf)
 }
 
 func vEventOK(b []byte) bool { return vLine(b) }
